@@ -56,6 +56,7 @@ type rumpConf struct {
 	policy    string
 	keyFile   bool
 	qps       int
+	manyKeys  int // this many further keys with plain names and values (key files longer than the scanner's start buffer)
 }
 
 func (c rumpConf) apply() {
@@ -89,6 +90,9 @@ func drawRumpScript(t *rapid.T, c rumpConf, id int) *rumpScript {
 		nk := rapid.SampledFrom([]int{1, 2, 3, int(c.keyNumber) - 1, int(c.keyNumber), int(c.keyNumber) + 1, 2 * int(c.keyNumber), 7}).Draw(t, "nkeys")
 		if nk < 1 {
 			nk = 1
+		}
+		if c.manyKeys > 0 && nk > 7 {
+			nk = 7
 		}
 		if c.qps > 0 {
 			nk = 4 // a low rate limit makes every key cost time; still more keys than one tick's tokens
@@ -128,6 +132,14 @@ func drawRumpScript(t *rapid.T, c rumpConf, id int) *rumpScript {
 			if c.policy == "rewrite" && rapid.IntRange(0, 5).Draw(t, "exists") == 0 {
 				s.existing[len(s.keys)] = true
 			}
+			idx = append(idx, len(s.keys))
+			s.keys = append(s.keys, rk)
+		}
+		for i := 0; i < c.manyKeys; i++ {
+			k := fmt.Sprintf("bulk:%d:%d:%05d:%s", id, db, i, strings.Repeat("x", i%23))
+			v := gen.Value{Kind: "string", Str: []byte(fmt.Sprintf("value-%d", i))}
+			rk := rumpKey{db: db, key: k, val: v, payload: gen.Payload(gen.TString, gen.AppendRawString(nil, v.Str), gen.DumpVersion), pttl: -1}
+			rk.big = uint64(len(rk.payload)) >= c.threshold
 			idx = append(idx, len(s.keys))
 			s.keys = append(s.keys, rk)
 		}
@@ -449,6 +461,11 @@ func c16KeyFile(t *rapid.T) {
 		policy:    rapid.SampledFrom([]string{"none", "rewrite"}).Draw(t, "policy"), keyFile: true}
 	c.filt = drawFilterConf(t, false, nil)
 	c.filt.slots, c.filt.lua, c.filt.dbWhite, c.filt.dbBlack = nil, false, nil, nil
+	if c16ForceLong || rapid.IntRange(0, 3).Draw(t, "longKeyFile") == 2 {
+		// a key file of 5-20 KiB: longer than the line scanner's 4 KiB start buffer
+		c.manyKeys = rapid.IntRange(180, 600).Draw(t, "manyKeys")
+		c.keyNumber = uint32(rapid.SampledFrom([]int{5, 50, 100, 100}).Draw(t, "keyNumberLong")) // 100 is the default
+	}
 	c.apply()
 	defer resetRumpConf()
 	defer quietLog()()
@@ -488,6 +505,15 @@ func c16KeyFile(t *rapid.T) {
 func TestC16(t *testing.T)            { rapid.Check(t, c16Batch) }
 func TestC16BigTargetDB(t *testing.T) { rapid.Check(t, c16BatchBigTargetDB) }
 func TestC16KeyFile(t *testing.T)     { rapid.Check(t, c16KeyFile) }
+
+// c16ForceLong pins the rare class "key file longer than the scanner's start buffer" (TestC16LongKeyFile).
+var c16ForceLong bool
+
+func TestC16LongKeyFile(t *testing.T) {
+	c16ForceLong = true
+	defer func() { c16ForceLong = false }()
+	rapid.Check(t, c16KeyFile)
+}
 
 func TestC16Regress(t *testing.T) {
 	// fixed D18: big key + key_exists=rewrite + a key that already exists on the target
